@@ -278,16 +278,24 @@ impl<'a> World<'a> {
             match op {
                 Pending::Put { spec, predicted_id } => {
                     if *predicted_id != *doc {
-                        self.violation("C06:next-frame-id-mismatch", format!("next_frame_id() before the put said {predicted_id}, document got id {doc}"));
-                        return false;
+                        // the prediction is C06's subject; a run for another property notes it and goes on with the real id
+                        // (the model takes its ids from the frame table), so that its own monitors still get to judge
+                        if self.rep.property == "C06" || self.rep.property == "C01" {
+                            self.violation("C06:next-frame-id-mismatch", format!("next_frame_id() before the put said {predicted_id}, document got id {doc}"));
+                            return false;
+                        }
+                        self.rep.count("other_property_violations[C06:next-frame-id-mismatch]");
                     }
                     self.rep.count("id_predictions_checked");
                     self.materialise_insert(*doc, chunks, spec.clone(), None);
                 }
                 Pending::Update { spec, predicted_id } => {
                     if *predicted_id != *doc {
-                        self.violation("C06:next-frame-id-mismatch", format!("next_frame_id() before the update said {predicted_id}, new version got id {doc}"));
-                        return false;
+                        if self.rep.property == "C06" || self.rep.property == "C01" {
+                            self.violation("C06:next-frame-id-mismatch", format!("next_frame_id() before the update said {predicted_id}, new version got id {doc}"));
+                            return false;
+                        }
+                        self.rep.count("other_property_violations[C06:next-frame-id-mismatch]");
                     }
                     self.rep.count("id_predictions_checked");
                     let old = self.model.frames[spec.target as usize].clone();
